@@ -594,6 +594,75 @@ def rule_quantizers_list(rep, repo):
               (roles, spec["order"]), loc=ci.module.loc(lit))
 
 
+def rule_reported_by_layer(rep, repo):
+  """R5 (layer side): every exported layer class with a get_quantizers() is
+  built by its OWN constructor (c13.layer_pe) with one distinct quantizer
+  object per role; get_quantizers() must hand out exactly the objects the
+  layer (or, for the recurrent wrappers, its cell) holds as applied
+  quantizers - the `*_quantizer_internal` attributes in the order of the
+  class's `quantizers` list, which R5 (constructor side) ties to the weight
+  order."""
+  from .c13 import layer_pe, exported_classes
+  from ..pe import ClassRef
+  qmod = repo.module("qkeras.quantizers")
+  n = 0
+  for name, ci in sorted(exported_classes(repo).items()):
+    owner, fn = ci.find_method("get_quantizers")
+    if fn is None or name in ("QBidirectional",) or ci.module.name not in (
+        "qkeras.qlayers", "qkeras.qconvolutional", "qkeras.qrecurrent",
+        "qkeras.qpooling", "qkeras.qmac", "qkeras.qconv2d_batchnorm",
+        "qkeras.qdepthwiseconv2d_batchnorm"):
+      continue     # (QBidirectional wraps other layer objects)
+    params = [p for p, _ in ci.init_params()[0]]
+    qparams = [p for p in params if p.endswith("_quantizer")]
+    if name == "QBatchNormalization":
+      qparams = [p for p in qparams if p != "inverse_quantizer"]
+    if not qparams:
+      continue
+    unit = "%s::%s.get_quantizers" % (owner.module.relpath, owner.name)
+    rep.unit(unit)
+    loc = owner.module.loc(fn)
+    pe = layer_pe(repo, ci, name)
+    kw = {}
+    for i, p in enumerate(qparams):
+      kw[p] = pe.call(pe.lookup_global("quantized_bits", qmod), [], dict(
+          bits=3 + i, integer=1, alpha=1))
+    for p_, v_ in (("units", 4), ("filters", 8), ("kernel_size", 3),
+                   ("pool_size", 2)):
+      if p_ in params:
+        kw[p_] = v_
+    try:
+      layer = pe.call(ClassRef(ci), [], dict(kw))
+      got = pe.call(pe.getattr(layer, "get_quantizers"), [], {})
+    except (PyRaise, Unsupported) as e:
+      rep.extra.setdefault("get_quantizers_not_interpretable", {})[
+          name] = str(e)[:100]
+      continue
+    holder = layer
+    if "quantizers" not in layer.attrs and isinstance(
+        layer.attrs.get("cell"), Obj):
+      holder = layer.attrs["cell"]
+    held = holder.attrs.get("quantizers")
+    internal = {id(holder.attrs.get(p + "_internal")): p for p in qparams
+                if holder.attrs.get(p + "_internal") is not None}
+    n += 1
+    ok = isinstance(got, list) and isinstance(held, list) and \
+        len(got) == len(held) and all(a is b for a, b in zip(got, held)) \
+        and all(q is None or id(q) in internal for q in got)
+    rep.check(ok, "R5", unit, "get_quantizers!=held-quantizers",
+              "%s: get_quantizers() returns %s; the layer holds %s" % (
+                  name, [internal.get(id(q), repr(q)) for q in got]
+                  if isinstance(got, list) else got,
+                  [internal.get(id(q), repr(q)) for q in held]
+                  if isinstance(held, list) else held), loc=loc,
+              instance=name)
+  rep.extra["layers_asked_for_their_quantizers"] = n
+  if n < 12:
+    raise AnalysisError("instance-count only %d layer classes answered "
+                        "get_quantizers() (%s)" % (n, rep.extra.get(
+                            "get_quantizers_not_interpretable")))
+
+
 def rule_dead_options(rep, repo):
   classes = list(SPECS) + ["qkeras.qpooling.QAveragePooling2D",
                            "qkeras.qpooling.QGlobalAveragePooling2D",
@@ -754,6 +823,7 @@ def run(rep, repo, tier):
                          "not computed")
   rule_layers(rep, repo, tier)
   rule_quantizers_list(rep, repo)
+  rule_reported_by_layer(rep, repo)
   rule_dead_options(rep, repo)
   rule_pooling(rep, repo)
   rep.require_instances("R1", 50)
